@@ -24,7 +24,7 @@ for d in sorted(glob.glob('/tmp/seed/C*/out/[123]')):
     for f in ('patch.diff', 'demo_test.go'):
         shutil.copy(os.path.join(d, f), out)
     checks = {c: dict(exit=r['exit'], wall=r['wall'], first_violation=(r['violations'][0][:2] if r['violations'] else None),
-                      no_failing_input_found=bool(r['violations'] and r['violations'][0][2]))
+                      no_failing_input_found=bool(r['violations'] and r['violations'][0][2]), obligations_broken=r.get('obligations_broken'))
               for c, r in vres.get('checks', {}).items()}
     caught = sorted(c for c, r in checks.items() if r['exit'] == 1)
     meta_out = dict(property=pid, breaks=meta.get('breaks'), summary=meta.get('summary'), needs=meta.get('needs'),
